@@ -231,6 +231,8 @@ def run_file_base(seed_i, tier, part):
         if tools and fl and fl[0].get("cls") == "file_header_region":
             reader = ("mci_ipm_to_csv", "mideu", "mci_ipm_to_csv", "IpmReader")[idx % 4]
         scn = dict(base, file_faults=fl, reader=reader)
+        if idx % 5 == 0:
+            scn["pipe"] = True       # read through a non-seekable stream
         _, out = corrupt.run_file(scn, img)
         _count(part, out, faults.fault_class(fl), img != image, img, reader)
         if out.kind == "rc" and "error" in (out.stdout or "").lower():
@@ -274,7 +276,7 @@ def gen_rawfile(seed_i):
             b += n.to_bytes(4, "big") + rng.randbytes(n + rng.choice([0, 0, -1, 1]) if n else 0)
         b = bytes(b)
     return {"kind": "raw_bytes", "as": "file", "bytes": hexspec(b), "encoding": kn.choice(["latin_1", "cp500"]),
-            "config": "packaged", "blocked": kn.random() < 0.5,
+            "config": "packaged", "blocked": kn.random() < 0.5, "pipe": kn.random() < 0.3,
             "reader": kn.choice(["VbsReader", "IpmReader", "mci_ipm_to_csv", "mideu"])}
 
 
